@@ -115,8 +115,15 @@ type Env struct {
 	Res    *Result
 	Known  map[string]bool // open known-finding ids (tolerances enabled)
 	failed bool
-	trans  []byte
-	probes map[string]int
+	th     uint64 // running FNV-1a hash of the canonical transcript
+	tn     int
+	probes [48]probeCell
+	known  [8]string
+}
+
+type probeCell struct {
+	name string
+	n    int
 }
 
 // Failure is the panic value used to unwind a task after a violation was recorded.
@@ -129,6 +136,8 @@ func (e *Env) Fail(sig, format string, a ...interface{}) {
 }
 
 // FailNoUnwind records the first violation.
+//
+//go:norace
 func (e *Env) FailNoUnwind(sig, format string, a ...interface{}) {
 	if !e.failed {
 		e.failed = true
@@ -139,33 +148,71 @@ func (e *Env) FailNoUnwind(sig, format string, a ...interface{}) {
 }
 
 // Failed reports whether a violation has been recorded.
+//
+//go:norace
 func (e *Env) Failed() bool { return e.failed }
 
-// Check counts one oracle evaluation.
+// Check counts one oracle evaluation. (norace: tasks are serialised by the simulator and the
+// counters are harness state, not goom state.)
+//
+//go:norace
 func (e *Env) Check() { e.Res.Checks++ }
 
-// Probe bumps a named reach counter.
-func (e *Env) Probe(name string) {
-	if e.probes == nil {
-		e.probes = map[string]int{}
-	}
-	e.probes[name]++
-}
+// Op counts one executed operation.
+//
+//go:norace
+func (e *Env) Op() { e.Res.Ops++ }
 
-// UseKnown notes that the tolerance of an open known finding explained a mismatch.
-func (e *Env) UseKnown(id string) {
-	for _, k := range e.Res.Known {
-		if k == id {
+// Probe bumps a named reach counter. No allocation, no map: tasks of one run call this from
+// different goroutines (serialised by the simulator) and the race build must stay silent.
+//
+//go:norace
+func (e *Env) Probe(name string) {
+	for i := range e.probes {
+		c := &e.probes[i]
+		if c.name == name {
+			c.n++
+			return
+		}
+		if c.name == "" {
+			c.name, c.n = name, 1
 			return
 		}
 	}
-	e.Res.Known = append(e.Res.Known, id)
 }
 
-// T appends a line to the canonical transcript.
+// UseKnown notes that the tolerance of an open known finding explained a mismatch.
+//
+//go:norace
+func (e *Env) UseKnown(id string) {
+	for i := range e.known {
+		if e.known[i] == id {
+			return
+		}
+		if e.known[i] == "" {
+			e.known[i] = id
+			return
+		}
+	}
+}
+
+// T appends a line to the canonical transcript (kept as a running hash).
+//
+//go:norace
 func (e *Env) T(format string, a ...interface{}) {
-	e.trans = append(e.trans, fmt.Sprintf(format, a...)...)
-	e.trans = append(e.trans, '\n')
+	s := fmt.Sprintf(format, a...)
+	h := e.th
+	if e.tn == 0 {
+		h = 14695981039346656037
+	}
+	for i := 0; i < len(s); i++ {
+		h ^= uint64(s[i])
+		h *= 1099511628211
+	}
+	h ^= '\n'
+	h *= 1099511628211
+	e.th = h
+	e.tn++
 }
 
 // SchedConfig converts the plan's knobs to a scheduler config.
@@ -221,7 +268,19 @@ func RunWith(w World, p *Plan, img *simenv.Image, known map[string]bool, started
 
 func (e *Env) finish() {
 	r := e.Res
-	r.Probes = e.probes
+	for _, c := range e.probes {
+		if c.name != "" {
+			if r.Probes == nil {
+				r.Probes = map[string]int{}
+			}
+			r.Probes[c.name] += c.n
+		}
+	}
+	for _, k := range e.known {
+		if k != "" {
+			r.Known = append(r.Known, k)
+		}
+	}
 	for k, v := range r.Stats.Probes {
 		if r.Probes == nil {
 			r.Probes = map[string]int{}
@@ -237,9 +296,7 @@ func (e *Env) finish() {
 	b, _ = json.Marshal(r.Fired)
 	h.Write(b)
 	r.CaseHash = fmt.Sprintf("%016x", h.Sum64())
-	th := fnv.New64a()
-	th.Write(e.trans)
-	r.Trans = fmt.Sprintf("%016x", th.Sum64())
+	r.Trans = fmt.Sprintf("%016x/%d", e.th, e.tn)
 	if r.Verdict != "ok" {
 		r.Plan = e.Plan
 		for _, ev := range simcore.TailEvents() {
